@@ -55,7 +55,8 @@ def run(chk):
                        'E-UNI': 'instances U2, C2, M2 (thorough: S3); d is empty exactly for the colours where e may be non-empty; labels empty/full are the empty set and the unit set'})
     chk.assumptions += ['E-MIR: bit-vector library model; with_custom_context returns Err for an empty unit set', 'context sets are subsets of the unit set that do not depend on auxiliary variables (the documented precondition)']
     from .. import conformance
-    conformance.run(chk, 2, 1); conformance.run(chk, 3, 0, samples=2)
+    from ..run import guard as _guard
+    _guard(chk, 'library-model conformance', conformance.run, chk, 2, 1); _guard(chk, 'library-model conformance', conformance.run, chk, 3, 0, samples=2)
     fs = family()
     tasks = []
     skip_fixed = {'empty', 'full'}
